@@ -50,6 +50,40 @@ theorem readers_agree_from {Ev : Type} (parseEvent : String → Option Ev) (line
     streamWith (parseLine parseEvent) lines = (preloadFrom parseEvent batch lines).map (List.map Prod.fst) :=
   stream_eq_preload parseEvent lines hlen batch
 
+/-- Same substring: what either reader hands to the payload parser for a line is `linePayload`, a
+function of the line alone (skip / reject / exactly this text). `parse_stream_line` consults the
+payload parser on nothing else … -/
+theorem stream_parses_line_payload {Ev : Type} (parseEvent : String → Option Ev) (t : String) :
+    parseLine parseEvent t = match linePayload t with
+      | .ok none => .ok none
+      | .ok (some text) => (match parseEvent (String.ofList text) with | some e => .ok (some e) | none => .reject)
+      | .reject => .reject
+      | .panic => .panic :=
+  parseLine_factors parseEvent t
+
+/-- … and one iteration of `parse` consults it on the very same text (the batch time only decides
+the offset attached to the event). Hence the readers can differ only through which lines reach the
+parser — never through the parser, as long as it is a function of its argument. -/
+theorem preload_parses_line_payload {Ev : Type} (parseEvent : String → Option Ev) (batch : Nat)
+    (l : RawLine) (ls : List RawLine) :
+    preloadFrom parseEvent batch (l :: ls) = match linePayload l.text with
+      | .ok none => preloadFrom parseEvent (nextBatch batch l.text) ls
+      | .ok (some text) => (match parseEvent (String.ofList text) with
+          | some e => (preloadFrom parseEvent batch ls).cons (e, lineOffset batch l.text)
+          | none => .reject)
+      | .reject => .reject
+      | .panic => .panic :=
+  preloadFrom_factors parseEvent batch l ls
+
+/-- The agreement with the payload grammar made concrete: `.evt` payloads through the modelled
+`parse_event_line` (`parseEventLine`: nesting, quotes, escapes, semicolons, positional form, arrays),
+JSONL payloads (leading `{`) through any function `json` standing for `parse_jsonl_line`. -/
+theorem readers_agree_concrete (json : String → Option Evt) (lines : List RawLine)
+    (hlen : ∀ l ∈ lines, l.rawLen ≤ maxLineLength) :
+    let parser : String → Option Evt := fun s => if s.toList.head? = some '{' then json s else parseEventLine s.toList
+    streamRead parser lines = (preloadRead parser lines).map (List.map Prod.fst) :=
+  stream_eq_preload _ lines hlen 0
+
 /-- Known finding `C46-oversized-line`: a line of more than `MAX_LINE_LENGTH` bytes is an event for
 the preloading reader and nothing for the streaming reader. -/
 theorem readers_agree_counterexample :
@@ -100,5 +134,21 @@ example :
     streamRead pe [⟨"@18446744073709551615s A { }", 30⟩] = .reject ∧
     preloadRead pe [⟨"A { }", 6⟩, ⟨"@1s oops!", 10⟩] = .reject ∧ streamRead pe [⟨"A { }", 6⟩, ⟨"@1s oops!", 10⟩] = .reject := by
   decide
+
+set_option maxRecDepth 100000 in
+/-- non-vacuity of the grammar model: nesting, quotes with commas/braces/escapes, repeated key
+(`IndexMap::insert` keeps the position), trailing semicolons, positional form, the value kinds. -/
+example :
+    parseEventLine "Order { id: 7, tags: [a, \"x,y\", [1, 2.5]], note: \"q{r}\\n\", id: -3 };;".toList
+      = some { type := "Order".toList,
+               fields := [("id".toList, .int (-3)),
+                          ("tags".toList, .arr [.str "a".toList, .str "x,y".toList, .arr [.int 1, .float "2.5".toList]]),
+                          ("note".toList, .str "q{r}\n".toList)] } ∧
+    parseEventLine "Tick(AAPL, 1e3, true, nil, 'it''s')".toList
+      = some { type := "Tick".toList,
+               fields := [("field_0".toList, .str "AAPL".toList), ("field_1".toList, .float "1e3".toList),
+                          ("field_2".toList, .bool true), ("field_3".toList, .null), ("field_4".toList, .str "it''s".toList)] } ∧
+    parseEventLine "JustAName".toList = none ∧ parseEventLine "A { x }".toList = none := by
+  refine ⟨?_, ?_, ?_, ?_⟩ <;> rfl
 
 end Varpulis.Props.C46
